@@ -323,6 +323,42 @@ impl Space for YmDiff {
                 out.lockstep("a.add(a.until(b))", &Ok((b.0, b.1)), &back, |m, v| (v.year() as i64, v.month()) == *m, attrs);
             }
         }
+        // rounded differences: the months are counted from the first of both months whatever the hidden reference
+        // day, then rounded relative to the first of the receiver's month (model: relative rounding R5r)
+        for (largest, smallest) in [(0usize, 0usize), (0, 1), (1, 1)] {
+            for inc in [1i64, 2, 5] {
+                for mode in tmc_ref::r4::ALL_MODES {
+                    let attrs = || {
+                        vec![
+                            ("a", format!("{}-{:02} ref {:?}", a.0, a.1, a.2)),
+                            ("b", format!("{}-{:02} ref {:?}", b.0, b.1, b.2)),
+                            ("largest", ["year", "month"][largest].to_string()),
+                            ("smallest", ["year", "month"][smallest].to_string()),
+                            ("increment", inc.to_string()),
+                            ("mode", mode.name().to_string()),
+                            ("explicit_reference_day", (a.2.is_some() || b.2.is_some()).to_string()),
+                        ]
+                    };
+                    let (da, db) = (tmc_ref::r2::Dt::new(Ymd::new(a.0, a.1, 1), 0), tmc_ref::r2::Dt::new(Ymd::new(b.0, b.1, 1), 0));
+                    // smallestUnit month with increment 1 skips the rounding step
+                    let (sm_eff, inc_eff) = if smallest == 1 && inc == 1 { (9, 1) } else { (smallest, inc) };
+                    let settings = diff(Some([Unit::Year, Unit::Month][largest]), Some([Unit::Year, Unit::Month][smallest]), Some(crate::conv::imode(mode)), Some(inc as u32));
+                    for (op, m) in [("PlainYearMonth::until(rounded)", mode), ("PlainYearMonth::since(rounded)", mode.negate())] {
+                        let model = tmc_ref::r5r::diff_with_rounding(da, db, largest, inc_eff, sm_eff, m).and_then(|d| tmc_ref::r5r::from_internal(&d, 3));
+                        let model = match model {
+                            Ok(f) => Ok(if op.contains("since") { f.map(|x| -x) } else { f }),
+                            Err(tmc_ref::r5::DErr::Range) => Err(ErrorKind::Range),
+                            Err(_) => {
+                                out.unjudged += 1;
+                                continue;
+                            }
+                        };
+                        let got = if op.contains("since") { call(|| pa.since(&pb, settings)) } else { call(|| pa.until(&pb, settings)) };
+                        out.lockstep(op, &model, &got, |mm, v| crate::conv::dur_i128(v) == *mm, attrs);
+                    }
+                }
+            }
+        }
         // week, day and time units are refused for every pair of operands - equal ones included
         for (uname, l, sm) in [("largest week", Some(Unit::Week), None), ("largest day", Some(Unit::Day), None), ("smallest week", None, Some(Unit::Week)), ("smallest day", None, Some(Unit::Day)), ("largest hour", Some(Unit::Hour), None), ("smallest nanosecond", None, Some(Unit::Nanosecond)), ("largest month, smallest year", Some(Unit::Month), Some(Unit::Year))] {
             let attrs = || vec![("a", format!("{}-{:02} ref {:?}", a.0, a.1, a.2)), ("b", format!("{}-{:02} ref {:?}", b.0, b.1, b.2)), ("units", uname.to_string()), ("equal_operands", ((a.0, a.1) == (b.0, b.1)).to_string())];
@@ -463,7 +499,7 @@ pub fn spaces(env: &Env) -> Vec<Box<dyn Space>> {
             }
         }
     }
-    for (y, m, r) in [(2020, 1, 31u8), (2020, 2, 29), (2020, 3, 15), (2021, 1, 31)] {
+    for (y, m, r) in [(2020, 1, 31u8), (2020, 2, 29), (2020, 3, 15), (2021, 1, 31), (2019, 12, 31), (2021, 7, 31), (2020, 6, 30), (2019, 6, 2)] {
         vals.push((y, m, Some(r)));
     }
     let ys = years(env.tier);
